@@ -51,9 +51,40 @@ def source_hash(path):
     return hashlib.sha256(src.encode()).hexdigest()[:16]
 
 
+class _JobTimeout(Exception):
+    pass
+
+
+def _alarm(signum, frame):
+    raise _JobTimeout()
+
+
+JOB_BUDGET_S = int(os.environ.get("VVERIF_JOB_BUDGET", "1200"))
+
+
 def _run_job(job, scale):
-    """executed in a worker process"""
+    """executed in a worker process; a job that exceeds its wall-clock budget is reported undecided (never a verdict)"""
+    import signal
+
     t0 = time.time()
+    try:
+        signal.signal(signal.SIGALRM, _alarm)
+        signal.alarm(JOB_BUDGET_S * scale)
+    except Exception:
+        pass
+    try:
+        return _run_job_inner(job, scale, t0)
+    except _JobTimeout:
+        return {"job": job["id"], "obs": [{"job": job["id"], "id": job["id"] + "/budget", "clause": "budget", "status": "unknown", "backend": "engine", "seconds": round(time.time() - t0, 1), "model": None,
+                                           "note": f"job exceeded its wall-clock budget of {JOB_BUDGET_S * scale}s"}], "seconds": round(time.time() - t0, 2), "error": None}
+    finally:
+        try:
+            signal.alarm(0)
+        except Exception:
+            pass
+
+
+def _run_job_inner(job, scale, t0):
     try:
         mod, _, fn = job["fn"].partition(":")
         f = getattr(importlib.import_module(mod), fn)
